@@ -104,7 +104,9 @@ pub fn schedules(bytes: &[u8], skip: bool, hash: bool, two_dev: bool) -> Vec<Sch
 	}
 	// deviation-bounded short reads over all read-call indices of the clean run
 	let mut r = EnvReader::new(bytes, Sched::Full);
+	let _guard = prepass("prepass_read_slp", bytes, &P { skip, hash, ..Default::default() });
 	let _ = read_slp_from(&mut r, skip, hash);
+	drop(_guard);
 	let calls = r.calls;
 	for i in 0..calls {
 		for k in [1usize, 2, 3] {
